@@ -63,7 +63,8 @@ def values_for(name):
         return [("utc-explicit", lambda: (datetime(2024, 3, 1, 8, tzinfo=UTC), datetime(2024, 3, 1, 9, tzinfo=UTC))),
                 ("utc-duration", lambda: (datetime(2024, 3, 1, 8, tzinfo=UTC), timedelta(hours=1))),
                 ("two", lambda: [(datetime(2024, 3, 1, 8, tzinfo=UTC), timedelta(hours=1)), (datetime(2024, 3, 2, 8, tzinfo=UTC), datetime(2024, 3, 2, 9, 30, tzinfo=UTC))]),
-                ("zoned", lambda: (zoned(ZA, 2024, 3, 1, 8), zoned(ZA, 2024, 3, 1, 9)))]
+                ("zoned", lambda: (zoned(ZA, 2024, 3, 1, 8), zoned(ZA, 2024, 3, 1, 9))),
+                ("early", lambda: (datetime(800, 12, 25, 9, tzinfo=UTC), timedelta(hours=1)))]
     if typ == "DURATION":
         v = [("1h", lambda: timedelta(hours=1)), ("-15m", lambda: timedelta(minutes=-15)), ("1d", lambda: timedelta(days=1)),
              ("zero", lambda: timedelta(0))]
@@ -71,22 +72,28 @@ def values_for(name):
             v.append(("abs-utc", lambda: datetime(2024, 3, 1, 8, tzinfo=UTC)))
         return v
     if typ == "DATE-TIME" and name in RP.UTC_ONLY:
-        v = [("utc", lambda: datetime(2024, 3, 1, 8, 30, 5, tzinfo=UTC))]
+        v = [("utc", lambda: datetime(2024, 3, 1, 8, 30, 5, tzinfo=UTC)), ("early-utc", lambda: datetime(999, 1, 2, 3, 4, 5, tzinfo=UTC))]
         if name != "COMPLETED":
             v += [("naive-as-utc", lambda: datetime(2024, 3, 1, 8, 30, 5)), ("zoned-to-utc", lambda: zoned(ZA, 2024, 3, 1, 9, 30, 5))]
         return v
     if typ == "DATE-TIME" and not is_list:
         return [("date", lambda: date(2024, 3, 1)), ("naive", lambda: datetime(2024, 3, 1, 8, 30)),
                 ("utc", lambda: datetime(2024, 3, 1, 8, 30, tzinfo=UTC)), ("zoned", lambda: zoned(ZA, 2024, 3, 31, 3, 30)),
-                ("zoned-b", lambda: zoned(ZB, 2024, 11, 3, 1, 30))]
+                ("zoned-b", lambda: zoned(ZB, 2024, 11, 3, 1, 30)),
+                # the ends of the value domain: years that need zero padding, the last representable second
+                ("early-naive", lambda: datetime(800, 12, 25, 9, 30)), ("early-utc", lambda: datetime(999, 1, 2, 3, 4, 5, tzinfo=UTC)),
+                ("early-date", lambda: date(33, 4, 3)), ("late-utc", lambda: datetime(9999, 12, 31, 23, 59, 59, tzinfo=UTC))]
     if typ == "DATE-TIME" and is_list:
         v = [("dates", lambda: [date(2024, 3, 1), date(2024, 3, 2)]), ("zoned", lambda: [zoned(ZA, 2024, 3, 1, 8), zoned(ZA, 2024, 3, 2, 8)]),
              ("utc", lambda: [datetime(2024, 3, 1, 8, tzinfo=UTC)]), ("single-naive", lambda: datetime(2024, 3, 1, 8)),
              ("naive-list", lambda: [datetime(2024, 3, 1, 8), datetime(2024, 3, 2, 8)]),
-             ("mixed-zones", lambda: [zoned(ZA, 2024, 3, 1, 8), zoned(ZB, 2024, 3, 2, 8)])]
+             ("mixed-zones", lambda: [zoned(ZA, 2024, 3, 1, 8), zoned(ZB, 2024, 3, 2, 8)]),
+             ("early-naive-list", lambda: [datetime(800, 12, 25, 9, 30), datetime(9999, 12, 31, 23, 59, 59)]),
+             ("early-dates", lambda: [date(33, 4, 3), date(999, 12, 31)])]
         if "PERIOD" in alts:
             v += [("periods-zoned", lambda: [(zoned(ZA, 2024, 3, 1, 8), timedelta(hours=1))]),
-                  ("periods-utc", lambda: [(datetime(2024, 3, 1, 8, tzinfo=UTC), datetime(2024, 3, 1, 9, tzinfo=UTC))])]
+                  ("periods-utc", lambda: [(datetime(2024, 3, 1, 8, tzinfo=UTC), datetime(2024, 3, 1, 9, tzinfo=UTC))]),
+                  ("periods-early", lambda: [(datetime(800, 12, 25, 9, tzinfo=UTC), datetime(801, 1, 1, 9, tzinfo=UTC))])]
         return v
     raise AssertionError(name)
 
